@@ -123,14 +123,31 @@ Definition interactive_simulation (fuel : nat) (nxt : stepfn) (s : sim) : result
   finish (interactive_run fuel nxt (initialize nxt (do_setup s))).
 Definition interactive_only (fuel : nat) (nxt : stepfn) (s : sim) : result sim :=
   interactive_run fuel nxt (initialize nxt (do_setup s)).
-(* a session: setup, then run_until to each of the given end times in turn *)
-Fixpoint run_untils (fuel : nat) (nxt : stepfn) (es : list Z) (s : sim) : result sim :=
-  match es with
-  | [] => Ok s
-  | e :: r => match run_until fuel nxt e s with Ok s' => run_untils fuel nxt r s' | x => x end
+(* a session of an InteractiveContext: setup, then a sequence of driver calls.  A call that is REFUSED - step / take_steps
+   with a step size of an incompatible type, run_until / run_for with an end time of an incompatible type, take_steps with a
+   number of steps that is not an int: all raise ValueError/TypeError from their argument checks (interactive.py 54-62,
+   122-128, 164-165) before any event is emitted - leaves the stepping state exactly as it was. *)
+Inductive sop :=
+  | OUntil (e : Z)            (* run_until(e) / run_for(e - clock) *)
+  | OTake (n : Z)             (* take_steps(n) / step() *)
+  | ORefused.                 (* a call refused by its argument checks *)
+Definition do_sop (fuel : nat) (nxt : stepfn) (o : sop) (s : sim) : result sim :=
+  match o with
+  | OUntil e => run_until fuel nxt e s
+  | OTake n => Ok (take_steps (Z.to_nat n) nxt s)
+  | ORefused => Ok s
   end.
-Definition interactive_session (fuel : nat) (nxt : stepfn) (es : list Z) (s : sim) : result sim :=
-  run_untils fuel nxt es (initialize nxt (do_setup s)).
+Fixpoint run_sops (fuel : nat) (nxt : stepfn) (ops : list sop) (s : sim) : result sim :=
+  match ops with
+  | [] => Ok s
+  | o :: r => match do_sop fuel nxt o s with Ok s' => run_sops fuel nxt r s' | x => x end
+  end.
+Definition interactive_session (fuel : nat) (nxt : stepfn) (ops : list sop) (s : sim) : result sim :=
+  run_sops fuel nxt ops (initialize nxt (do_setup s)).
+Definition is_refused (o : sop) : bool := match o with ORefused => true | _ => false end.
+(* wire format of a session: (0, e) run_until e; (1, n) n steps; anything else a refused call *)
+Definition decode_sop (p : Z * Z) : sop :=
+  if fst p =? 0 then OUntil (snd p) else if fst p =? 1 then OTake (snd p) else ORefused.
 
 (* ---- listeners that raise ----
    A listener that raises ends everything at once: EventChannel.emit's loops, engine.step's loop over the four events and
@@ -189,15 +206,16 @@ Definition mk_sim (start stop_ st : Z) (cs : list comp) : sim :=
 (* ---- correspondence 2: real contexts ----
    case = (start, stop, step, driver (0 SimulationContext: setup, initialize_simulants, run, finalize, report;
            1 InteractiveContext: setup, run, finalize, report; 2 / 3: the same two without finalize and report;
-           4 InteractiveContext: setup, then run_until / run_for to each of the end times [ends] in turn),
-           ends, step-size table (new clock -> global step size from there on, read off the implementation; empty for the
+           4 InteractiveContext: setup, then the session [ops]: run_until / run_for to arbitrary end times, steps, and
+           refused calls in between),
+           ops, step-size table (new clock -> global step size from there on, read off the implementation; empty for the
            fixed-step clocks of the property: [table_nxt []] is [fixed]), components,
            observed: probe log (channel, listener, clock, event.time, event.step_size, life-cycle state at the call),
            initializer log (initializer, creation_time, creation_window,
            clock), final clock, number of step() calls, outcome (0 = returned normally, 1 = InvalidTransitionError, 2 = another error)) *)
 Definition ocall := (cid * lid * Z * Z * Z * Z)%type.
 Definition oinit := icall.
-Definition sim_case := (Z * Z * Z * Z * list Z * list (Z * Z) * list comp * (list ocall * list oinit * Z * Z * Z))%type.
+Definition sim_case := (Z * Z * Z * Z * list (Z * Z) * list (Z * Z) * list comp * (list ocall * list oinit * Z * Z * Z))%type.
 Definition table_nxt (tbl : list (Z * Z)) : stepfn := fun t st => match zassoc t tbl with Some st' => st' | None => st end.
 
 Definition call_eqb (a b : call) : bool :=
@@ -224,19 +242,19 @@ Definition sort_icalls (l : list icall) : list icall := fold_right insert_icall 
 Definition icall_eqb (a b : icall) : bool :=
   let '(l1, a1, b1, c1) := a in let '(l2, a2, b2, c2) := b in (l1 =? l2) && (a1 =? a2) && (b1 =? b2) && (c1 =? c2).
 
-Definition model_run (driver : Z) (fuel : nat) (nxt : stepfn) (ends : list Z) (s : sim) : result sim :=
+Definition model_run (driver : Z) (fuel : nat) (nxt : stepfn) (ops : list (Z * Z)) (s : sim) : result sim :=
   if driver =? 0 then run_simulation fuel nxt s
   else if driver =? 1 then interactive_simulation fuel nxt s
   else if driver =? 2 then run_only fuel nxt s
   else if driver =? 3 then interactive_only fuel nxt s
-  else interactive_session fuel nxt ends s.
+  else interactive_session fuel nxt (map decode_sop ops) s.
 
 (* the observed calls are tagged positionally with the model's bucket sequence (see Events.same_up_to_buckets) *)
 Definition check_sim (c : sim_case) : bool :=
-  let '(start, stop_, st, driver, ends, tbl, cs, (ocalls, oinits, oclock, osteps, ocode)) := c in
+  let '(start, stop_, st, driver, ops, tbl, cs, (ocalls, oinits, oclock, osteps, ocode)) := c in
   let s0 := mk_sim start stop_ st cs in
   (* fuel: one more than the number of steps the implementation made is enough for agreement and small enough to run *)
-  match model_run driver (S (Z.to_nat osteps)) (table_nxt tbl) ends s0 with
+  match model_run driver (S (Z.to_nat osteps)) (table_nxt tbl) ops s0 with
   | Ok s =>
       (ocode =? 0)
       && Nat.eqb (length ocalls) (length (calls s))
